@@ -206,11 +206,8 @@ def r18_4_5_6(chk):
         src = norm(nx.node)
         chk.require(f"frame_number=self.{counter}" in src.replace(" ", ""), "R18.4", "frame-number-is-the-counter",
                     "the record's frame number is not this frame's own counter", nx.where)
-    glr = ix.get_method("DLISFile", "generate_logical_records")
-    src = norm(glr.node)
-    chk.require("logical_file._make_multi_frame_data(fr" in src.replace(" ", "").replace("(\n", "(") or
-                "_make_multi_frame_data(fr" in src, "R18.4", "one-generator-per-frame",
-                "frame data generators are not created one per frame of each logical file", glr.where)
+    # one generator per frame of each logical file: decided by the shared rule of C09 R09.1
+    # ("frame-data-built-per-logical-file-in-order", already part of R18.1 above)
     from ..terms import SELF, A, contains, return_alternatives, pp, subterms, is_call
     lf = ix.get_class("LogicalFile")
     for prop, setcls in (("defining_origin", "OriginSet"), ("channels", "ChannelSet"), ("frames", "FrameSet"),
